@@ -64,12 +64,14 @@ struct bitset {
         TETL_PRECONDITION(len >= 0);
         TETL_PRECONDITION(len <= size());
 
+        // The first character corresponds to the most significant bit
         for (decltype(pos) i = 0; i < len; ++i) {
+            auto const bit = static_cast<etl::size_t>(len - 1 - i);
             if (Traits::eq(str[i + pos], one)) {
-                set(i, true);
+                set(bit, true);
             }
             if (Traits::eq(str[i + pos], zero)) {
-                set(i, false);
+                set(bit, false);
             }
         }
     }
